@@ -8,7 +8,7 @@ FW_ASSUMPTIONS = ["single forwarding thread (thread id 0); multi-thread dispatch
 
 PLAN = {
     "C05": {
-        "parts": [{"engine": "tablesim", "quick": 60000, "thorough": 6000000}],
+        "parts": [{"engine": "tablesim", "quick": 40000, "thorough": 3000000}],
         "nontrivial": ">=3 prefixes held next hops at some point and >=1 next-hop removal/clear took effect",
         "fault_note": "no clock, I/O or concurrency is involved in this property; the simulator contributes history generation, the reference model, shrinking and replay only, so no fault kind applies",
         "components": {"real": ["fw/table FibStrategyTree", "fw/table FibStrategyHashTable (m in 1..6)", "std/encoding names/hashes"], "stub": []},
@@ -16,42 +16,42 @@ PLAN = {
                         "names are drawn from a 3-letter alphabet, depth 0..6 (plus /zz probes); faces 1..5; costs 0..3 and 2^64-1"],
     },
     "C06": {
-        "parts": [{"engine": "tablesim", "quick": 50000, "thorough": 5000000}],
+        "parts": [{"engine": "tablesim", "quick": 100000, "thorough": 6000000}],
         "nontrivial": ">=2 nested prefixes held routes at some step and >=1 unregistration or face teardown removed a route",
         "fault_note": "fault kind = face teardown (RIB clean-up as face.Table.Remove performs it) injected at arbitrary points of the registration history",
         "components": {"real": REAL_TABLES, "stub": ["face table (teardown is represented by the RIB clean-up call it makes)"]},
         "assumptions": ["routes are identified by (prefix, face, origin) as in the management protocol", "expiration periods are not simulated (the forwarder does not act on them)"],
     },
     "C08": {
-        "parts": [{"engine": "fwsim", "quick": 20000, "thorough": 2000000}, {"engine": "tablesim", "quick": 30000, "thorough": 3000000}],
+        "parts": [{"engine": "fwsim", "quick": 40000, "thorough": 3000000}, {"engine": "tablesim", "quick": 30000, "thorough": 3000000}],
         "nontrivial": "(forwarder part) >=1 PIT entry expired unsatisfied and >=1 was satisfied by Data before the drain phase; (table part) >=2 nested prefixes held routes and >=1 removal/teardown happened before the drain",
         "fault_note": PLAN_FW_FAULTS + "; then faults and traffic stop and the clock runs past every lifetime (bounded-liveness drain). Table part: face teardown injected into the registration history",
         "components": {"real": FW_COMPONENTS["real"] + REAL_TABLES, "stub": FW_COMPONENTS["stub"]},
         "assumptions": FW_ASSUMPTIONS,
     },
     "C09": {
-        "parts": [{"engine": "fwsim", "quick": 20000, "thorough": 2000000}],
+        "parts": [{"engine": "fwsim", "quick": 80000, "thorough": 4000000}],
         "nontrivial": ">=1 /localhost packet was offered while a non-local face existed",
         "fault_note": "network faults are scripted by the scenario: lost Data (Interest expires), duplicated Data, Interests re-entering on another face with the same nonce (loop), tokens echoed on the wrong face; endpoint fault: face teardown",
         "components": {"real": ["fw/fw Thread.Run loop and pipelines", "fw/fw best-route and multicast strategies", "fw/table PitCsTree + CsLRU + DeadNonceList (own timers on the bubble clock)", "fw/table FIB (nametree or hashtable)", "fw/table NetworkRegion", "std/ndn/spec_2022 packet codec"], "stub": ["faces (recording dispatch.Face with scope/link type)", "peers (scripted by the scenario)", "link service (packets enter at the forwarding-thread queue)"]},
         "assumptions": ["single forwarding thread (thread id 0); multi-thread dispatch is exercised by facesim/mgmtsim"],
     },
     "C01": {
-        "parts": [{"engine": "fwsim", "quick": 25000, "thorough": 2500000}],
+        "parts": [{"engine": "fwsim", "quick": 100000, "thorough": 5000000}],
         "nontrivial": ">=1 arriving Data was delivered to >=1 pending downstream",
         "fault_note": PLAN_FW_FAULTS,
         "components": FW_COMPONENTS,
         "assumptions": FW_ASSUMPTIONS,
     },
     "C02": {
-        "parts": [{"engine": "fwsim", "quick": 25000, "thorough": 2500000}],
+        "parts": [{"engine": "fwsim", "quick": 100000, "thorough": 5000000}],
         "nontrivial": ">=1 Interest was forwarded and >=1 was dropped/aggregated for a stated reason (hop limit 0, no nonce, loop, dead nonce, suppression, unknown face, scope)",
         "fault_note": PLAN_FW_FAULTS,
         "components": FW_COMPONENTS,
         "assumptions": FW_ASSUMPTIONS,
     },
     "C07": {
-        "parts": [{"engine": "fwsim", "quick": 25000, "thorough": 2500000}],
+        "parts": [{"engine": "fwsim", "quick": 100000, "thorough": 5000000}],
         "nontrivial": ">=1 eviction happened and >=1 MustBeFresh lookup met a stale cached packet",
         "fault_note": PLAN_FW_FAULTS + "; clock: freshness periods cross their boundary through scenario-chosen advances (0, +-1 ms around periods)",
         "components": FW_COMPONENTS,
@@ -59,21 +59,21 @@ PLAN = {
     },
 }
 PLAN["C20"] = {
-    "parts": [{"engine": "enginesim", "quick": 60000, "thorough": 6000000}],
+    "parts": [{"engine": "enginesim", "quick": 500000, "thorough": 30000000}],
     "nontrivial": ">=2 Interests were pending simultaneously and >=2 kinds of result (Data, Nack, timeout) occurred",
     "fault_note": "the scenario decides every interleaving of Express, Data/Nack arrival, 'fire the k-th due timer' and clock advance; network faults = Data that never comes (timeout), late Data after the deadline, duplicated Data, Nacks for names with and without a pending Interest; the face recycles its receive buffer after each callback",
     "components": {"real": ["std/engine/basic Engine (Express, onPacket, onData, onNack, timeout closures, handlers, Reply)", "std/engine/basic NameTrie", "std/ndn/spec_2022 codec"], "stub": ["face (SimFace implementing std/engine/face.Face)", "timer (SimTimer implementing ndn.Timer: event heap, scenario-chosen firing order)"]},
     "assumptions": ["Express is not called re-entrantly from inside a result callback (the engine holds its PIT lock there)", "a Nack is allowed, not required, to resolve the Interests of its name"],
 }
 PLAN["C11"] = {
-    "parts": [{"engine": "streamsim", "quick": 5000, "thorough": 400000, "quick_wall": 80}],
+    "parts": [{"engine": "streamsim", "quick": 20000, "thorough": 600000, "quick_wall": 80}],
     "nontrivial": "the stream wrapped the 32-packet receive buffer at least once and >=1 read ended inside a type or length field (readTlvStream), or >3 blocks went through StreamFace.Run over a pipe",
     "fault_note": "stream I/O faults: arbitrary chunking incl. 1-byte reads and reads ending inside T/L, reads that exactly fill the buffer, transient read errors (with and without data), EOF at an arbitrary byte",
     "components": {"real": ["fw/face readTlvStream (the loop behind TCP and Unix stream transports)", "std/engine/face StreamFace.Run (over net.Pipe in a synctest bubble)", "std/encoding ReadTLNum"], "stub": ["socket (scripted io.Reader / net.Pipe)", "link service above the framing (frames are copied inside the callback, as handleIncomingFrame does)"]},
     "assumptions": ["TLV lengths use the shortest encoding (NDN packet format); 5-byte VAR-NUMBER forms are exercised in the type field", "EOF is delivered as a separate (0, EOF) read, as net.Conn does"],
 }
 PLAN["C10"] = {
-    "parts": [{"engine": "linksim", "quick": 40000, "thorough": 4000000}],
+    "parts": [{"engine": "linksim", "quick": 300000, "thorough": 20000000}],
     "nontrivial": "a message needed >=2 fragments, or its single-frame encoding landed within 2 bytes of the MTU",
     "fault_note": "link schedule = permutation/interleaving of the frames of up to three concurrent messages (clean population: exactly-once and byte identity are demanded); separate populations with frame loss (never a partial or altered delivery) and frame duplication (every delivered copy byte-identical)",
     "components": {"real": ["fw/face NDNLPLinkService send path (sendPacket: MTU budgeting, fragmentation, LP encoding)", "fw/face NDNLPLinkService receive path (handleIncomingFrame, reassemblePacket, dispatch)", "std/ndn/spec_2022 LpPacket codec"], "stub": ["transport (SimTransport: frames handed to the scenario's link schedule)", "forwarding threads behind the receiver (recording dispatch.FWThread)"]},
@@ -89,14 +89,14 @@ PLAN["C04"] = {
     "level_text": "Seeded search over corrupted traffic delivered to the real receive paths in a deterministic simulation; invariants per frame: no panic, bounded allocation, bounded steps, no state change on undecodable frames. Samples the byte-sequence space through structure-aware mutation; not a proof, and scoped to decoders a simulated component reaches.",
 }
 PLAN["C17"] = {
-    "parts": [{"engine": "mgmtsim", "quick": 6000, "thorough": 600000}],
+    "parts": [{"engine": "mgmtsim", "quick": 20000, "thorough": 1000000}],
     "nontrivial": ">=1 state-changing command was accepted and >=1 command was refused or unauthorised",
     "fault_note": "management faults: ControlParameters missing, truncated or with disagreeing lengths (corruption), unknown modules/verbs, commands under foreign prefixes, from non-local faces, with a consumer-chosen next hop aimed at the internal face; endpoint fault: face destroyed in mid-history (later commands name it, routes through it are cleaned up)",
     "components": {"real": ["fw/mgmt Thread.Run and all six modules", "fw/face internal transport + its NDNLP link service", "fw/face NDNLP link services of the application faces (send/receive goroutines)", "fw/fw Thread.Run (1-2 threads), PIT/CS", "fw/table FIB (nametree/hashtable), RIB, strategy table", "fw/face FaceTable", "std/ndn/mgmt_2022 codecs"], "stub": ["transports of application faces (SimTransport)", "faces/create is exercised only on URIs that must be refused (a successful create dials real sockets)"]},
     "assumptions": ["RIB commands use the /r name space and FIB commands the /f name space (the RIB rewrites the FIB entry of a prefix it manages)", "an MTU below 64 bytes cannot carry a packet and must be refused; 64..127 is left open; >=128 must be accepted", "a requester never destroys its own face or the internal face", "NLSR readvertisement is off"],
 }
 PLAN["C16"] = {
-    "parts": [{"engine": "schedsim", "quick": 20000, "thorough": 2000000}],
+    "parts": [{"engine": "schedsim", "quick": 40000, "thorough": 3000000}],
     "nontrivial": ">=1 task was parked inside a RIB mutator while another task ran, or the scenario's release order decided more than 4 scheduling points",
     "fault_note": "schedule fault = which parked task is released at each yield point (before every FIB lock acquisition, between the steps of face removal, between a lookup's return and the use of its result); endpoint fault = face teardown racing with registrations and lookups",
     "components": {"real": ["fw/table RibTable (AddEncRoute, RemoveRouteEnc, CleanUpFace)", "fw/table FibStrategyTree / FibStrategyHashTable incl. their RWMutex", "fw/face Table.Remove", "fw/dispatch face map"], "stub": ["the threads themselves: management thread, face send goroutines and forwarding threads are represented by simulated tasks that issue the same table calls"]},
@@ -104,7 +104,7 @@ PLAN["C16"] = {
     "technique": "deterministic simulation: cooperative seeded scheduler over real goroutines parked at lock/yield hooks, recorded history checked for linearizability with porcupine against a sequential reference model",
 }
 PLAN["C15"] = {
-    "parts": [{"engine": "objsim", "quick": 3000, "thorough": 300000}],
+    "parts": [{"engine": "objsim", "quick": 8000, "thorough": 400000}],
     "nontrivial": "the fetched object had >=2 segments and >=1 segment Data arrived out of order or only after a retransmission",
     "fault_note": "network faults between consumer and producer: Interest/Data drop (within and beyond the 3-retry budget), delay (incl. beyond the Interest lifetime), duplication; reordering arises from delays; versions published in arbitrary order; name slices with spare capacity; both stores",
     "components": {"real": ["std/object Client (run loop goroutine, Produce, Consume, round-robin segment fetcher, ExpressR retry)", "std/object MemoryStore and BoltStore (real bbolt file under TMPDIR, removed after the run)", "std/engine/basic Engine x2 with its real Timer on the bubble clock", "std/ndn/rdr_2024 metadata codec"], "stub": ["faces (SimFace)", "the network/forwarder between the two engines (scripted hub)"]},
